@@ -745,7 +745,7 @@ pub fn run(args: Args) -> ! {
         }
         rep.stats.merge(st);
     }
-    let run = run_tape("C14.spans", &prop, 3000, args.tier.pick(40_000, 1_000_000), args.seed, workers());
+    let run = run_tape("C14.spans", &prop, 3000, args.tier.pick(200_000, 2_000_000), args.seed, workers());
     finish_run(&mut rep, "spans", run);
     for c in ["bom", "crlf", "dotted-key", "inline-table", "aot-header", "std-header", "twin", "twin-struct", "quoted-key"] {
         rep.require_class(c);
